@@ -526,6 +526,15 @@ class SymStr:
         if c in ("core::iter::traits::collect::IntoIterator::into_iter", "core::iter::traits::iterator::Iterator::by_ref") or c.endswith("IntoIterator>::into_iter"):
             if a0 is not None and a0[0] == "abs" and a0[1] == "siter":
                 return [(OK, args[0] if c.endswith("by_ref") else a0, st)]
+        if (c == "core::iter::traits::iterator::Iterator::collect" or c.endswith("::collect")) and isinstance(n, dict) and n.get("ty") == "alloc::string::String":
+            if a0 is not None and a0[0] == "abs" and a0[1] == "siter":
+                ps = [pieces_of(I.deref_val(st, x)) for x in a0[2][a0[3]:]]
+                if all(x is not None for x in ps):
+                    out = []
+                    for x in ps:
+                        out.extend(x)
+                    return [(OK, mk(out), st)]
+                return [(OK, unk("collect-string"), st)]
         if c == "core::iter::traits::iterator::Iterator::collect" or c.endswith("::collect"):
             if a0 is not None and a0[0] == "abs" and a0[1] == "siter":
                 return [(OK, ("abs", "svec", a0[2][a0[3]:]), st)]
